@@ -198,6 +198,12 @@ func (h *cbMembership) monitor() {
 					logger.Log.Debug("instance no longer available, id: %v", id)
 					return
 				} else {
+					if !h.monitorRunning {
+						// Close() arrived while this round was in flight: the connection is going away
+						logger.Log.Debug("monitor round interrupted by close, id: %v, err: %v", id, err)
+						return
+					}
+
 					logger.Log.Error("error while monitor try to get instance, err: %v", err)
 					panic(err)
 				}
